@@ -180,3 +180,69 @@ def play_schedule(tier, seed, only=None):
         if not ok:
             fails.append(dict(clause='play follows the schedule without drift', inputs=dict(seed=seed, trial=trial, pattern=pattern, meta_messages=want_meta), detail=why))
     return dict(evaluations=n, distinct_nontrivial=len(seen), failures=fails[:20])
+
+
+@bounded('iteration-is-reentrant', ('C13', 'C16'), '150 (1500 thorough) random files with tempo changes (1-3 tracks, <= 8 messages each): while one iteration or play() is suspended at '
+         'EVERY position k, the file is measured (length), iterated completely, or a second iterator is advanced in lockstep; the outer times must still follow the tempo map')
+def reentrant_iteration(tier, seed, only=None):
+    import mido
+    import time as _t
+    rng = random.Random(seed)
+    fails, n, seen = [], 0, set()
+    for trial in range(150 if tier == 'quick' else 1500):
+        tpb = rng.choice([96, 480])
+        tracks = []
+        for _ in range(rng.randrange(1, 4)):
+            tr = mido.MidiTrack()
+            for _ in range(rng.randrange(1, 9)):
+                if rng.random() < 0.35:
+                    tr.append(mido.MetaMessage('set_tempo', tempo=rng.choice([125000, 250000, 500000, 1000000]), time=rng.choice([0, 240, 480])))
+                else:
+                    tr.append(mido.Message('note_on', note=rng.randrange(128), time=rng.choice([0, 1, 120, 480, 960])))
+            tracks.append(tr)
+        mf = mido.MidiFile(type=rng.choice([0, 1]) if len(tracks) == 1 else 1, ticks_per_beat=tpb, tracks=tracks)
+        ref, cur = [], 500000
+        for m in mido.merge_tracks(tracks):
+            ref.append(m.time * cur * 1e-6 / tpb)
+            if m.type == 'set_tempo':
+                cur = m.tempo
+        for inner in ('length', 'full-iteration', 'lockstep', 'play+length'):
+            for k in range(len(ref)):
+                n += 1
+                seen.add((trial, inner, k))
+                real_sleep = _t.sleep
+                try:
+                    got = []
+                    if inner == 'play+length':
+                        clock = [0.0]
+                        _t.sleep = lambda d: clock.__setitem__(0, clock[0] + d)
+                        prev = 0.0
+                        for i, m in enumerate(mf.play(meta_messages=True, now=lambda: clock[0])):
+                            got.append(clock[0] - prev)
+                            prev = clock[0]
+                            if i == k:
+                                mf.length
+                    else:
+                        other = iter(mf) if inner == 'lockstep' else None
+                        for i, m in enumerate(mf):
+                            got.append(m.time)
+                            if inner == 'lockstep':
+                                if i >= k:
+                                    next(other, None)
+                            elif i == k:
+                                if inner == 'length':
+                                    mf.length
+                                else:
+                                    list(mf)
+                    ok = len(got) == len(ref) and all(abs(a - b) <= 1e-9 for a, b in zip(got, ref))
+                    detail = 'times %r, tempo map %r' % ([round(x, 6) for x in got], [round(x, 6) for x in ref])
+                except Exception as ex:      # noqa
+                    ok, detail = False, repr(ex)
+                finally:
+                    _t.sleep = real_sleep
+                if not ok:
+                    fails.append(dict(clause='times of a suspended iteration do not depend on other uses of the file in between',
+                                      inputs=dict(seed=seed, trial=trial, in_between=inner, at_message=k, ticks_per_beat=tpb, tracks=[[str(x) for x in tr] for tr in tracks]),
+                                      detail=detail[:400]))
+                    break
+    return dict(evaluations=n, distinct_nontrivial=len(seen), failures=fails[:20])
